@@ -303,6 +303,40 @@ fn run_sign_rt(plan: &Plan, lib: &dyn Lib, rec: &mut Rec) {
             c.pass(200 * MS);
         }
     }
+    // messages whose CONTENT is related to the signer's own key material (the message-augmentation scheme puts the key in
+    // front of the message itself; a signing service signs registrations that start with, or are, the registrant's key):
+    // pk || m, pk alone, pk without its last byte, pk with its last bit flipped, an earlier signature || m, the key's own
+    // proof of possession, under the run's scheme
+    if plan.class != "grid-keys" || plan.seed % 8 == 0 {
+        let pk = rec.call(lib, g, Op::PublicKey, &[&sk]).first().map(|b| b.to_vec()).unwrap_or_default();
+        let tail_len = 1 + x.below(40) as usize;
+        let tail = x.bytes(tail_len);
+        let earlier = first_sig.values().next().cloned().unwrap_or_default();
+        let pop = rec.call(lib, g, Op::Pop, &[&sk]).first().map(|b| b.to_vec()).unwrap_or_default();
+        let mut flipped = pk.clone();
+        if let Some(l) = flipped.last_mut() {
+            *l ^= 1;
+        }
+        let related: [(&str, Vec<u8>); 6] = [
+            ("own-pk-then-message", [pk.as_slice(), tail.as_slice()].concat()),
+            ("own-pk", pk.clone()),
+            ("own-pk-minus-last-byte", pk[..pk.len().saturating_sub(1)].to_vec()),
+            ("own-pk-last-bit-flipped-then-message", [flipped.as_slice(), tail.as_slice()].concat()),
+            ("earlier-signature-then-message", [earlier.as_slice(), tail.as_slice()].concat()),
+            ("own-proof-of-possession", pop),
+        ];
+        for (what, m) in related {
+            let s1 = rec.call(lib, g, Op::Sign, &[&sk, &[scheme], &m]);
+            let s2 = rec.call(lib, g, Op::Sign, &[&sk, &[scheme], &m]);
+            let Some(sig) = s1.first().map(|b| b.to_vec()) else {
+                rec.expect("C01", "signing-succeeds", false, || format!("sign key-related-message {} scheme={} g={} | {:?}", what, scheme_name(scheme), g.name(), s1));
+                continue;
+            };
+            rec.expect("C01", "signing-deterministic", s2.first() == Some(sig.as_slice()), || format!("determinism key-related-message {} scheme={} | two signatures of one (key, scheme, message) differ", what, scheme_name(scheme)));
+            let v = rec.call(lib, g, Op::Verify, &[&sig, &pk, &m]);
+            rec.expect("C01", "honest-signature-verifies", v.is_ok(), || format!("verify key-related-message {} scheme={} g={} key_class={} len={} | honest signature rejected: {:?}", what, scheme_name(scheme), g.name(), kc, m.len(), v));
+        }
+    }
     rec.sample(|| format!("g={} scheme={} key_class={} msg_class={} sk_codec={} wire={} faults={}", g.name(), scheme_name(scheme), kc, plan.get("msg_class"), sk_codec.name(), wire.name(), plan.faults.len()));
     c.finish(rec);
 }
@@ -511,9 +545,36 @@ fn run_tamper(plan: &Plan, lib: &dyn Lib, rec: &mut Rec) {
     let first = c.at(2, || rec.call(lib, g, Op::Verify, &[&sig, &a.pk, &msg]));
     rec.expect("C02", "honest-tuple-accepted", first.is_ok(), || format!("honest-before scheme={} g={} | honest tuple rejected: {:?}", scheme_name(scheme), g.name(), first));
     let arrived = c.ship(0, 2, K_RESP, 0, vec![t.pk.clone(), t.sig.clone(), t.msg.clone()]);
+    // the wire form of the response is the relay's choice too: half of the time the key and the signature reach the
+    // verifier in another codec (every decoder is a way in), forged there by substituting the point bytes
+    const WIRE: [Codec; 8] = [Codec::Bare, Codec::Json, Codec::JsonReader, Codec::JsonValue, Codec::TreeBin, Codec::TreeBinLend, Codec::TreeHr, Codec::BytesBox];
+    let (wire_sig, wire_pk) = (if x.chance(1, 2) { Codec::Bytes } else { WIRE[x.below(8) as usize] }, if x.chance(1, 2) { Codec::Bytes } else { WIRE[x.below(8) as usize] });
     for r in arrived {
         let tt = Tuple { pk: r.parts[0].clone(), sig: r.parts[1].clone(), msg: r.parts[2].clone() };
-        let out = c.at(2, || rec.call(lib, g, Op::Verify, &[&tt.sig, &tt.pk, &tt.msg]));
+        let plain = tt.sig.len() == sig.len() && tt.pk.len() == a.pk.len() && tt.sig.first() == sig.first();
+        let sig_w = if plain && wire_sig != Codec::Bytes { crate::sc_codec::forge_point_in_codec(rec, lib, g, Ty::Signature, wire_sig, &sig, &sig[1..], &tt.sig[1..]).or_else(|| if tt.sig == sig { recode(rec, lib, g, Ty::Signature, Codec::Bytes, wire_sig, &sig).first().map(|b| b.to_vec()) } else { None }) } else { None };
+        let pk_w = if plain && wire_pk != Codec::Bytes { crate::sc_codec::forge_point_in_codec(rec, lib, g, Ty::PublicKey, wire_pk, &a.pk, &a.pk, &tt.pk).or_else(|| if tt.pk == a.pk { recode(rec, lib, g, Ty::PublicKey, Codec::Bytes, wire_pk, &a.pk).first().map(|b| b.to_vec()) } else { None }) } else { None };
+        let out = c.at(2, || {
+            // the verifier decodes what arrived in the codec it arrived in; a refusal to decode is a rejection
+            let s_in = match &sig_w {
+                Some(w) => match recode(rec, lib, g, Ty::Signature, wire_sig, Codec::Bytes, w) {
+                    Out::Ok(v) => v[0].clone(),
+                    o => return o,
+                },
+                None => tt.sig.clone(),
+            };
+            let p_in = match &pk_w {
+                Some(w) => match recode(rec, lib, g, Ty::PublicKey, wire_pk, Codec::Bytes, w) {
+                    Out::Ok(v) => v[0].clone(),
+                    o => return o,
+                },
+                None => tt.pk.clone(),
+            };
+            if sig_w.is_some() || pk_w.is_some() {
+                rec.probe("perturbed-tuple-delivered-in-another-codec");
+            }
+            rec.call(lib, g, Op::Verify, &[&s_in, &p_in, &tt.msg])
+        });
         let exp = ref_decision(g, &draft, &tt);
         let changed = tt.pk != a.pk || tt.msg != msg || tt.sig != sig;
         rec.case(&[2, g as u64, scheme as u64, mode as u64, exp as u64], changed);
@@ -651,6 +712,38 @@ fn run_relabel(plan: &Plan, lib: &dyn Lib, rec: &mut Rec) {
                 rec.expect("C05", "relabelled-signature-rejected", !out.is_ok(), || format!("MultiSignature {} g={} | relabelled multi-signature verifies", pair, g.name()));
                 let out = rec.call(lib, g, Op::AggVerify, &[&r.parts[0], &a.pk, &msg]);
                 rec.expect("C05", "relabelled-signature-rejected", !out.is_ok(), || format!("AggregateSignature {} g={} | relabelled aggregate verifies", pair, g.name()));
+            }
+            // real aggregates: 2-4 signers under `from`, in the list shapes the schemes treat differently (all messages
+            // distinct, ALL signers over one message, two and two), the aggregate's label rewritten to `to`, verified
+            // against the very list it was made for
+            {
+                let n = 2 + (plan.seed as usize + to as usize) % 3;
+                let signers: Vec<Party> = (0..n).filter_map(|i| party(rec, lib, g, 4 + (i as u64 % 2), plan.seed ^ (0xA66 + i as u64))).collect();
+                for shape in 0..3usize {
+                    let msgs: Vec<Vec<u8>> = (0..signers.len()).map(|i| { let mut m = msg.clone(); match shape { 0 => m.push(i as u8), 1 => {}, _ => m.push((i / 2) as u8) }; m }).collect();
+                    let sigs: Vec<Vec<u8>> = signers.iter().zip(msgs.iter()).filter_map(|(p, m)| rec.call(lib, g, Op::Sign, &[&p.sk, &[from], m]).first().map(|v| v.to_vec())).collect();
+                    if sigs.len() != signers.len() || sigs.len() < 2 {
+                        continue;
+                    }
+                    let refs: Vec<&[u8]> = sigs.iter().map(|s| s.as_slice()).collect();
+                    let Some(mut agg) = rec.call(lib, g, Op::Aggregate, &refs).first().map(|v| v.to_vec()) else { continue };
+                    agg[0] = to;
+                    let mut args: Vec<&[u8]> = vec![&agg];
+                    for (p, m) in signers.iter().zip(msgs.iter()) {
+                        args.push(&p.pk);
+                        args.push(m);
+                    }
+                    let out = rec.call(lib, g, Op::AggVerify, &args);
+                    rec.expect("C05", "relabelled-signature-rejected", !out.is_ok(), || format!("AggregateSignature-of-{} {} shape={} g={} | an aggregate made under one scheme verifies under another against its own list", signers.len(), pair, ["distinct-messages", "one-message", "two-and-two"][shape], g.name()));
+                    // ... and its point presented as a multi-signature under the other label against the summed key (one message)
+                    if shape == 1 {
+                        let pks: Vec<&[u8]> = signers.iter().map(|p| p.pk.as_slice()).collect();
+                        if let Some(mpk) = rec.call(lib, g, Op::MultiPk, &pks).first().map(|v| v.to_vec()) {
+                            let out = rec.call(lib, g, Op::MultiVerify, &[&agg, &mpk, &msgs[0]]);
+                            rec.expect("C05", "relabelled-signature-rejected", !out.is_ok(), || format!("MultiSignature-of-{} {} g={} | signatures of one scheme summed and relabelled verify against the summed key", signers.len(), pair, g.name()));
+                        }
+                    }
+                }
             }
             if from != 1 && to != 1 && shares.len() == 3 {
                 if let (Some(part), Some(pks)) = (
